@@ -9,8 +9,19 @@ OVERLAY = {PKG + "/zz_c15_verif_test.go": "harness/overlay/eventbus/c15_verif_te
 
 
 def harness(ctx, casefile, tier, seed):
-    return ctx.go_test(PKG, "TestVerifC15$", OVERLAY,
-                       env={"VERIF_OUT": casefile, "VERIF_TIER": tier, "VERIF_SEED": str(seed)}, timeout=1500)
+    crash = casefile + ".crash"
+    if os.path.exists(crash):
+        os.remove(crash)
+    rc, out = ctx.go_test(PKG, "TestVerifC15$", OVERLAY,
+                          env={"VERIF_OUT": casefile, "VERIF_TIER": tier, "VERIF_SEED": str(seed)}, timeout=1500)
+    if rc != 0 and os.path.exists(crash):
+        # the test binary died (unrecoverable panic in a bus goroutine, or the harness stopped on a
+        # deadlock): the harness noted the case up to the fatal stimulus, ending in a panic label
+        if "panic:" in out or "fatal error:" in out:
+            with open(casefile, "a") as f:
+                f.write(open(crash).read())
+            ctx.notes.append("test binary crashed: " + " | ".join(l for l in out.splitlines() if l.startswith(("panic:", "fatal error:")))[:300])
+    return rc, out
 
 
 def warm(ctx):
@@ -20,8 +31,15 @@ def warm(ctx):
 
 
 def replay_harness(ctx, casefile, toks):
-    return ctx.go_test(PKG, "TestVerifC15Replay$", OVERLAY,
-                       env={"VERIF_OUT": casefile, "VERIF_REPLAY_CASE": " ".join(map(str, toks))}, timeout=300)
+    crash = casefile + ".crash"
+    if os.path.exists(crash):
+        os.remove(crash)
+    rc, out = ctx.go_test(PKG, "TestVerifC15Replay$", OVERLAY,
+                          env={"VERIF_OUT": casefile, "VERIF_REPLAY_CASE": " ".join(map(str, toks))}, timeout=300)
+    if rc != 0 and os.path.exists(crash) and ("panic:" in out or "fatal error:" in out):
+        with open(casefile, "a") as f:
+            f.write(open(crash).read())
+    return rc, out
 
 
 OPS = {0: "Emitter()", 1: "Emitter.Close", 2: "Emit", 3: "Subscribe", 4: "Sub.Close"}
